@@ -129,6 +129,7 @@ def run(ck):
         rep, wl, hl = shape_breaks[0]
         rep["broken"] = "correspondence: recorded write sequence is not an instance of the model's family (sequential appends, then %d tag bytes at offset 10 as the last write)" % hl
         ck.violation("the write sequence reaching the output (%s) is not the one the theorem is about, but no intermediate state verified" % wl, rep, found_input=False)
+    os_level_states(ck, exe, env, cases)
     ck.cov["distinct_nontrivial"] = len(distinct)
     ck.cov["encryptions"] = len(cases) * 2
     ck.cov["disagreements_model_vs_impl"] = corr
@@ -137,3 +138,157 @@ def run(ck):
         ck.violation("correspondence model/implementation no longer checks on %d crash states, no property violation found" % corr, last, found_input=False)
     return finish_proof(ck, rule="%d encryptions (each with a stdio-buffered and an unbuffered output stream, writes recorded below stdio by a custom FILE cookie); the recorded write sequence must be an instance of the model's family (contiguous appends, then hlen bytes at offset 10, last); every state after a write and byte prefixes inside each write (thorough: every byte prefix) is reconstructed and given to the real verify and decrypt. distinct = distinct reconstructed states" % len(cases),
                         assumptions=["the OS applies the bytes of successive writes in order (a crash leaves a byte prefix of the write stream)", "a zero-tag crash state verifies only if HMAC(key, bytes from 48) is all zero: explicit residual event in the theorem, probability 2^-8hlen under the PRF assumption"])
+
+
+def os_level_states(ck, exe, env, cases):
+    """The same question asked of the OPERATING SYSTEM: encryption to a REAL file (a descriptor exists, unlike the recording
+    streams above, so code that works on the descriptor - pre-allocation, truncation, positioned writes, a temporary file renamed
+    into place - runs) under strace; the file image after every system call that modifies the output is rebuilt from the trace
+    and every image that is not the finished file must be rejected by verify and decrypt.  The size announced to execute_encrypt
+    is also varied (exact, 0, too large, too small): it is documented as progress information only."""
+    import os, re, shutil, subprocess
+    if not shutil.which("strace"):
+        ck.cov["os_level_runs"] = "skipped (no strace)"
+        return
+    big = ck.tier == "thorough"
+    r = ck.rng
+    picks = [c for c in cases if c.n > 0][: 10 if big else 3]
+    runs = []
+    for c in picks:
+        for ann in ([None, 0, c.n + 4000, max(0, c.n - 40), c.n + 16] if big else [None, c.n + 4000, r.choice([0, max(0, c.n - 40)])]):
+            runs.append((c, ann))
+    items = []
+    nsys = 0
+    for j, (c, ann) in enumerate(runs):
+        d = os.path.join(ck.scratch, "os%d" % j)
+        os.makedirs(d)
+        pin, pout, plog = os.path.join(d, "in.bin"), os.path.join(d, "out.wenc"), os.path.join(d, "trace")
+        open(pin, "wb").write(c.plain)
+        line = "x encp %d %d %d %s %s %s %s%s\n" % (c.cm, c.hm, c.T, c.key.hex(), (c.seed or b"s").hex(), pin, pout, "" if ann is None else " %d" % ann)
+        e = dict(os.environ)
+        e.update(env)
+        try:
+            p = subprocess.run(["strace", "-f", "-y", "-xx", "-s", "1000000", "-o", plog, "-e", "trace=read,readv,write,pwrite64,writev,pwritev,ftruncate,truncate,fallocate,lseek,rename,renameat,renameat2,unlink,unlinkat,openat,open,creat,mmap,copy_file_range,sendfile",
+                                exe], input=line, capture_output=True, text=True, timeout=120, env=e)
+        except Exception as ex:
+            ck.cov["os_level_runs"] = "skipped (strace failed: %s)" % str(ex)[:60]
+            return
+        if "x OK" not in p.stdout or not os.path.exists(pout):
+            ck.violation("encryption to a real file did not report success (announced size %s)" % ann, {"class": None, "case": c.line()[:2000], "announced_size": ann, "driver_output": p.stdout[-200:], "driver_flags": ck.impl_flags})
+            continue
+        final = open(pout, "rb").read()
+        # rebuild the images of every file under the scratch directory from the trace
+        img, pos, names = {}, {}, {}     # path -> bytearray ; (pid-agnostic) fd -> offset ; current name of an inode we follow
+        states = []
+
+        def snap(why):
+            cur = bytes(img.get(pout, b""))
+            if not states or states[-1][0] != cur:
+                states.append((cur, why))
+        fdre = re.compile(r"^(\d+)<([^>]*)>")
+        for l in open(plog, errors="replace"):
+            m = re.match(r"^\d+\s+(\w+)\((.*)\)\s+=\s+(-?\d+|0x[0-9a-f]+)", l.strip())
+            if not m:
+                continue
+            call, args, ret = m.group(1), m.group(2), m.group(3)
+            if ret.startswith("-"):
+                continue
+            retv = int(ret, 16) if ret.startswith("0x") else int(ret)
+            if call in ("openat", "open", "creat"):
+                pm = re.search(r'"((?:\\x[0-9a-f]{2})*)"', args)
+                if not pm:
+                    continue
+                path = bytes.fromhex(pm.group(1).replace("\\x", "")).decode("utf-8", "replace")
+                if not path.startswith(d):
+                    continue
+                if "O_TRUNC" in args or "O_CREAT" in args and path not in img:
+                    if "O_TRUNC" in args or path not in img:
+                        img[path] = bytearray(open(pin, "rb").read() if path == pin else b"")
+                pos[retv] = 0
+                names[retv] = path
+                if path == pout:
+                    snap(call)
+                continue
+            fm = fdre.match(args)
+            if call in ("rename", "renameat", "renameat2"):
+                ps = [bytes.fromhex(x.replace("\\x", "")).decode("utf-8", "replace") for x in re.findall(r'"((?:\\x[0-9a-f]{2})*)"', args)]
+                if len(ps) >= 2 and ps[0] in img:
+                    img[ps[-1]] = img.pop(ps[0])
+                    for k, v in list(names.items()):
+                        if v == ps[0]:
+                            names[k] = ps[-1]
+                    nsys += 1
+                    snap(call)
+                continue
+            if not fm:
+                continue
+            fd = int(fm.group(1))
+            path = names.get(fd)
+            if path is None or not path.startswith(d) or path == pin:
+                continue
+            b = img.setdefault(path, bytearray())
+            rest = args[fm.end():]
+            if call == "lseek":
+                pos[fd] = retv
+            elif call in ("read", "readv"):
+                pos[fd] = pos.get(fd, 0) + retv
+            elif call in ("write", "pwrite64"):
+                dm = re.search(r'"((?:\\x[0-9a-f]{2})*)"', rest)
+                data = bytes.fromhex(dm.group(1).replace("\\x", ""))[:retv] if dm else bytes(retv)
+                off = pos.get(fd, 0)
+                if call == "pwrite64":
+                    off = int(rest.rsplit(",", 1)[1].strip())
+                if len(b) < off + len(data):
+                    b.extend(bytes(off + len(data) - len(b)))
+                b[off:off + len(data)] = data
+                if call == "write":
+                    pos[fd] = off + len(data)
+                nsys += 1
+                if path == pout:
+                    snap("%s of %d bytes at %d" % (call, len(data), off))
+            elif call in ("ftruncate", "truncate"):
+                n = int(rest.split(",")[1].strip())
+                if len(b) > n:
+                    del b[n:]
+                else:
+                    b.extend(bytes(n - len(b)))
+                nsys += 1
+                if path == pout:
+                    snap("%s to %d" % (call, n))
+            elif call == "fallocate":
+                f = [x.strip() for x in rest.split(",")]
+                try:
+                    off, ln = int(f[2]), int(f[3])
+                    if f[1] in ("0", "") and len(b) < off + ln:
+                        b.extend(bytes(off + ln - len(b)))
+                        nsys += 1
+                        if path == pout:
+                            snap("fallocate to %d" % (off + ln))
+                except (ValueError, IndexError):
+                    pass
+            elif call in ("writev", "pwritev", "mmap", "copy_file_range", "sendfile"):
+                if call != "mmap" or "PROT_WRITE" in rest and "MAP_SHARED" in rest:
+                    ck.notes.append("os-level trace uses %s on the output: not reconstructed" % call)
+        if bytes(img.get(pout, b"")) != final:
+            ck.cov.setdefault("os_level_unreconstructed", []).append("announced=%s: replaying the trace gives %d bytes, the file has %d" % (ann, len(img.get(pout, b"")), len(final)))
+            continue
+        for (s_, why) in states:
+            if s_ != final:
+                items.append((c.T, c.key, s_, {"case": c, "where": "after system call: %s (announced size %s, real size %d)" % (why, ann, c.n), "final_len": len(final)}))
+        # the finished file itself must verify
+        items.append((c.T, c.key, final, {"case": c, "where": "finished", "final": True, "final_len": len(final)}))
+        shutil.rmtree(d, ignore_errors=True)
+    res = run_inputs(ck, exe, env, items) if items else []
+    for x in res:
+        m = x["meta"]
+        ck.cov["evaluations"] += 1
+        if m.get("final"):
+            continue        # a finished file made with a wrong announced size is a separate question (C01/C02)
+        if x["ver"].startswith("OK") or x["dec"].startswith("OK"):
+            ck.violation("the output FILE as the operating system holds it %s is accepted although the encryption was not finished: verify %s decrypt %s" % (m["where"], x["ver"][:8], x["dec"][:12]),
+                         replay_of(ck, x, {"state": m["where"], "case": m["case"].line()[:300], "how": "strace -f -y -xx of harness/drv.cpp 'encp cm hm T key seed in out [announced]'; file image rebuilt after every modifying system call"}))
+            break
+    ck.cov["os_level_runs"] = len(runs)
+    ck.cov["os_level_states"] = len(items)
+    ck.cov["os_level_syscalls_replayed"] = nsys
+    ck.cov.setdefault("case_classes", {})["os-level/real-file-under-strace"] = len(items)
